@@ -94,8 +94,9 @@ Record config := mkConfig {
   c_skip_bl : bool;                        (* taintSpec.SkipBoundLabels *)
   c_implicit : bool;                       (* taintSpec.FailOnImplicitFlow *)
   c_maxalarms : N;                         (* MaxAlarms (0: no limit) *)
-  c_fixaps : bool                          (* false: the code as pinned.  true: REPAIRED variant of addNext (proposed fix
-                                              C07-accesspaths-dedup): next access paths deduplicated and sorted *)
+  c_fixaps : bool                          (* true: addNext as it is NOW (fix d51dcca "canonicalize access paths": next access
+                                              paths deduplicated and sorted).  false: the code as originally pinned (a list
+                                              with duplicates in map order; diverges in field-sensitive mode, finding F3) *)
 }.
 
 (** ** Visitor nodes *)
@@ -567,7 +568,7 @@ Section Model.
 
   (** ** [addNext] *)
 
-  (** repaired variant: insertion into a list sorted by rank, without duplicates *)
+  (** canonical access paths ([c_fixaps]): insertion into a list sorted by rank, without duplicates *)
   Fixpoint ins_path (x : positive) (l : list positive) : list positive :=
     match l with
     | [] => [x]
